@@ -606,6 +606,67 @@ func c15RunServer(c *Ctx, ids []device.ID, steps []c15Step, opline string) strin
 	return strings.Join(out, " | ")
 }
 
+// c15RelaySteps: a proxy P (ids[0]) relays for others. C (ids[1]) and sometimes D (ids[2]) are
+// registered, k packets are queued for C, then P sends a multi-device batch that carries C's tag and
+// whose elements leave the reply empty (oneshots, nested batches) or fill it (a packet of P itself /
+// of D): the reply is then built from the tag-resolved batches alone, or merged with them. Returns
+// the steps and the packets queued for C.
+func c15RelaySteps(r *Rng, ids []device.ID) ([]c15Step, []c15Leaf) {
+	var queued []c15Leaf
+	// directed: a proxy P relays for others. C (and D) are registered, k packets are queued for C,
+	// then P sends a multi-device batch that carries C's tag and whose elements leave the reply
+	// empty (oneshots, nested batches), or fill it (a packet of P itself / of D): the reply is
+	// then built from the tag-resolved batches alone, or merged with them
+	pi, ci, di := 0, 1, 2
+	hello := func(d int) c15Step {
+		return c15Step{kind: 'T', pkt: c15Pkt{c15Sub: c15Sub{dev: d, pid: c2.SvHello, job: uint16(1 + r.Intn(65000)), pay: 'h'}}}
+	}
+	steps := []c15Step{hello(pi), hello(ci)}
+	if r.Bool() {
+		steps = append(steps, hello(di))
+	}
+	// the registration answers are fetched first, so that only the queued packets remain
+	poll := func(d int) c15Step {
+		return c15Step{kind: 'T', pkt: c15Pkt{c15Sub: c15Sub{dev: d, pid: 0, job: 0, pay: 'e'}}}
+	}
+	if r.Chance(70) {
+		steps = append(steps, poll(ci))
+	}
+	for k := 1 + r.Intn(3); k > 0; k-- {
+		lf := c15Leaf{dev: ids[ci], pid: []uint8{0x14, 0xC8, 7, 9}[r.Intn(4)], job: uint16(2 + r.Intn(60000))}
+		queued = append(queued, lf)
+		steps = append(steps, c15Step{kind: 'Q', id: ci, leaf: lf})
+	}
+	if r.Chance(30) {
+		steps = append(steps, c15Step{kind: 'Q', id: pi, leaf: c15Leaf{pid: 0x14, job: uint16(2 + r.Intn(60000))}})
+	}
+	b := c15Pkt{c15Sub: c15Sub{dev: pi, pid: 0, job: 0, pay: 'e'}}
+	for k := 1 + r.Intn(2); k > 0; k-- {
+		e := c15Sub{dev: di, pid: 0x14, job: uint16(2 + r.Intn(60000)), pay: 'd'}
+		switch r.Intn(5) {
+		case 0:
+			e.flags = uint64(com.FlagOneshot)
+		case 1:
+			e.flags = uint64(com.FlagMulti)
+		case 2:
+			e.dev = pi
+		case 3:
+			e.flags = uint64(com.FlagOneshot)
+			e.dev = len(ids) - 1
+		}
+		b.subs = append(b.subs, e)
+	}
+	f := com.Flag(com.FlagMulti | com.FlagMultiDevice)
+	f.SetLen(uint16(len(b.subs)))
+	b.flags = uint64(f)
+	b.tags = []c15Tag{{idx: ci}}
+	if r.Chance(25) {
+		b.tags = append(b.tags, c15Tag{idx: di})
+	}
+	steps = append(steps, c15Step{kind: 'T', pkt: b}, poll(ci), poll(pi))
+	return steps, queued
+}
+
 // ---- generators -----------------------------------------------------------------------------------
 
 var c15DataIDs = []uint8{0, 1, 3, 4, 6, 7, 0x14, 0xC8}
@@ -1038,6 +1099,10 @@ func runC15(c *Ctx) {
 				steps = append(steps, c15Step{kind: 'R', id: d})
 			}
 		}
+		if i%8 == 3 && len(ids) >= 3 {
+			steps, _ = c15RelaySteps(r, ids)
+			c.Count("srv:directed-relay")
+		}
 		hexids := make([]string, len(ids))
 		for k := range ids {
 			hexids[k] = hx(ids[k][:])
@@ -1057,6 +1122,111 @@ func runC15(c *Ctx) {
 			c.Count("srv:some-error")
 		}
 		c.Eval(withColl && len(steps) >= 4, op)
+	})
+	// B2. channel mode: ONE long-lived connection of a proxy P; every packet read from it carries the
+	// current tag list. After each packet the Sessions redirected to the connection are compared with
+	// the model, and a packet queued for a device lands on P's connection only if P's LATEST packet
+	// names it.
+	c.Cases("chan", c.N(600, 12000), func(r *Rng, i int) {
+		ids := []device.ID{c15RandID(r)}
+		if r.Chance(40) && len(pairs) > 0 {
+			p := pairs[r.Intn(len(pairs))]
+			ids = append(ids, p[0], p[1])
+		}
+		for k := 2 + r.Intn(3); k > 0; k-- {
+			ids = append(ids, c15RandID(r))
+		}
+		env := c2.VerifC15NewEnv()
+		defer env.Close()
+		hello := func(d int) bool {
+			n := &com.Packet{ID: c2.SvHello, Device: ids[d], Job: uint16(1 + r.Intn(60000))}
+			c2.VerifC15HelloPayload(n, ids[d], true)
+			return env.Talk("A", n).Err == nil
+		}
+		if !hello(0) {
+			return
+		}
+		ch := env.NewChan(ids[0])
+		if ch == nil {
+			return
+		}
+		toks := []string{"H0"}
+		outs := []string{"H"}
+		input := map[string]interface{}{}
+		redir := func() string {
+			var l []string
+			for _, d := range ch.Redirected() {
+				l = append(l, c15Idx(ids, d))
+			}
+			sort.Strings(l)
+			return c15List(l)
+		}
+		var latest map[uint32]bool
+		n := 3 + r.Intn(8)
+		for k := 0; k < n; k++ {
+			switch x := r.Intn(100); {
+			case x < 35:
+				d := 1 + r.Intn(len(ids)-1)
+				hello(d)
+				toks = append(toks, fmt.Sprintf("H%d", d))
+				outs = append(outs, "H")
+			default:
+				var tags []uint32
+				var tt []string
+				nt := r.Intn(4)
+				if r.Chance(30) {
+					nt = 0
+				}
+				for j := 0; j < nt; j++ {
+					if r.Chance(8) {
+						v := uint32(r.U64()) | 1
+						tags = append(tags, v)
+						tt = append(tt, fmt.Sprintf("n%d", v))
+					} else {
+						d := r.Intn(len(ids))
+						tags = append(tags, ids[d].Hash())
+						tt = append(tt, fmt.Sprintf("i%d", d))
+					}
+				}
+				if k == n-1 && r.Chance(10) {
+					tags = append(tags, 0)
+					tt = append(tt, "n0")
+				}
+				tok := "C-"
+				if len(tt) > 0 {
+					tok = "C" + strings.Join(tt, "+")
+				}
+				toks = append(toks, tok)
+				err := ch.Resolve(tags)
+				if err != nil {
+					outs = append(outs, "C:err r="+redir())
+				} else {
+					outs = append(outs, "C:ok r="+redir())
+					latest = map[uint32]bool{}
+					for _, t := range tags {
+						latest[t] = true
+					}
+					// direct oracle: queue one packet for every registered device
+					for d := 1; d < len(ids); d++ {
+						found, via := ch.QueueFor(ids[d], &com.Packet{ID: 0x14, Job: uint16(2 + r.Intn(60000)), Device: ids[d]})
+						if found && via && !latest[ids[d].Hash()] {
+							input["op"] = "chan " + strings.Join(toks, " ")
+							c.Fail("outbound", "chan-stale-redirect:conn.resolve", fmt.Sprintf("a packet queued for device %s was handed to the channel connection of %s although the latest packet read from that connection does not name it (tags %v)", ids[d], ids[0], tt), input)
+						}
+						if found && via {
+							c.Count("chan:queued-via-host")
+						}
+					}
+				}
+			}
+		}
+		hexids := make([]string, len(ids))
+		for k := range ids {
+			hexids[k] = hx(ids[k][:])
+		}
+		op := "chan " + strings.Join(hexids, ",") + " " + strings.Join(toks, " ")
+		c.Op(op, strings.Join(outs, " | "))
+		c.Eval(len(toks) >= 4, op)
 	})
 	// C. proxy side histories: ids[0] is the parent Session of the proxy
 	c.Cases("prx", c.N(2000, 80000), func(r *Rng, i int) {
